@@ -72,7 +72,7 @@ var configs = map[string]*propConfig{
 	},
 	"C13": {
 		id: "C13", level: "exploration", checkptr: "1", plain: true,
-		quickRuns: 150000, thorRuns: 3000000, enumQuick: true, enumThor: true,
+		quickRuns: 120000, thorRuns: 3000000, enumQuick: true, enumThor: true,
 		memKB: 4 << 20, quickWall: 70 * time.Second, thorWall: 15 * time.Minute, runTimeout: 20 * time.Second,
 		rule: "seeded histories (1..14 calls quick, 1..40 thorough) of Append(x) / Append(x,y,x) / Remove(x) / Remove(nil) / Contains / Count on the six collection kinds, over a generated pool of 3..8 items with pairwise distinct ids in the shapes IRI, *Object, Object, *Actor, Actor, *Activity, Activity (nested properties from the reflect-driven generator), with knobs: initial contents nil or a literal prefix of the pool, exact or spare capacity holding sentinel members, access through the type's own methods, through OnCollectionIntf, or mixed; Remove always through the item-list view (OnItemCollection). Plus the bounded-exhaustive tier: every sequence of length 1..L (L=4 quick, 5 thorough) over the 9-letter alphabet {Append(p_i), Remove(p_i), Append(p_i,p_j,p_i)} on a 3-item pool, for every kind x 3 pool-shape variants x spare capacity {0,2} x initial members {0,2} x access {direct, OnCollectionIntf}. distinct = distinct hash of the rendered history (seeded) / distinct enumerated tuple (exhaustive); non-trivial = contains at least one Append or Remove.",
 		assumptions: []string{
@@ -357,6 +357,21 @@ func check(propID, tier string) int {
 				if r.class != "" && !r.hard {
 					got++
 					last = r
+				}
+			}
+			if got == 0 && plan.HistoryStride > 0 && plan.Entry == "" && len(plan.Case) == 0 {
+				// The run alone does not show it: what the process had executed before may matter (state
+				// that builds up over thousands of calls). Replay the process: the same runs, in the same
+				// order, in a fresh process, then the failing run.
+				hp := clonePlan(plan)
+				hp.HistoryOn = true
+				hev := *ev
+				hev.timeout = 10 * cfg.runTimeout
+				h1 := hev.eval(hp)
+				h2 := hev.eval(hp)
+				if h1.class == class && h2.class == class {
+					plan, got, last = hp, 2, h1
+					f.detail = fmt.Sprintf("(needs the process history: the replay first re-executes run indices %d, %d, … below %d of the batch in the same process)\n", hp.HistoryFrom, hp.HistoryFrom+hp.HistoryStride, hp.RunIndex) + f.detail
 				}
 			}
 			if got == 0 {
